@@ -583,6 +583,8 @@ pub struct Ctx {
     pub profile: String,
     /// (index, count): sanitizer legs split enumerations over several processes
     pub shard: (u64, u64),
+    /// set when the driver runs as part of the composed C02/C03 workloads in the quick tier: coarser strides
+    pub light: bool,
 }
 #[derive(Clone, Copy, PartialEq, Eq, Debug)]
 pub enum Tier {
@@ -609,6 +611,14 @@ impl Tier {
 }
 
 impl Ctx {
+    /// quick-tier stride: `light` when composed into C02/C03, `normal` when the driver runs for its own property
+    pub fn q(&self, light: i64, normal: i64) -> i64 {
+        if self.light {
+            light
+        } else {
+            normal
+        }
+    }
     /// for sequential loops: is item `k` part of this shard?
     #[inline]
     pub fn mine(&self, k: u64) -> bool {
